@@ -85,6 +85,14 @@ static void scen_defaults(struct scen *sc, struct rng *r)
 
 /* ------------------------------------------------------------------ scenario execution */
 static struct rtr_socket OTHER1, OTHER2;
+#ifdef SIM_TCP_WRAPS
+#include "rtrlib/transport/tcp/tcp_transport.h"
+static long USE_TCP; /* argument tcp=1: the client's transport is the library's TCP transport, see sim_tr.c */
+#else
+#define USE_TCP 0
+static struct tr_socket tcp_tr_unused;
+#define tcp_tr tcp_tr_unused
+#endif
 
 /* C18, synchronisations: the client reports ESTABLISHED although an allocation was made to fail earlier in the
  * conversation - whatever that allocation was for must have been given up cleanly: both tables still take and release
@@ -180,7 +188,24 @@ static int run_scen(struct scen *sc, uint64_t seed, struct sim *keep)
 	sim_attach(s, &sock, &pfxt, &spkit);
 	if (sc->cfg.others)
 		sim_populate_others(s, &OTHER1, &OTHER2);
-	if (rtr_init(&sock, &s->tr, &pfxt, &spkit, sc->cfg.refresh, sc->cfg.expire, sc->cfg.retry, sc->cfg.iv_mode, sim_state_cb, s,
+#ifdef SIM_TCP_WRAPS
+	struct tr_socket tcp_tr;
+	struct tr_tcp_config tcp_cfg = {.host = (char *)"cache.invalid", .port = (char *)"323", .data = s, .new_socket = sim_tcp_new_socket, .connect_timeout = 5};
+
+	memset(&tcp_tr, 0, sizeof(tcp_tr));
+	if (USE_TCP) {
+		bool was = ALLOC_MODE && AM.paused;
+
+		if (ALLOC_MODE)
+			AM.paused = true;
+		if (tr_tcp_init(&tcp_cfg, &tcp_tr) != TR_SUCCESS)
+			exit(2);
+		if (ALLOC_MODE)
+			AM.paused = was;
+		CNT("tcp/scenarios_over_the_real_tcp_transport");
+	}
+#endif
+	if (rtr_init(&sock, USE_TCP ? &tcp_tr : &s->tr, &pfxt, &spkit, sc->cfg.refresh, sc->cfg.expire, sc->cfg.retry, sc->cfg.iv_mode, sim_state_cb, s,
 		     NULL) != RTR_SUCCESS) {
 		viol("C17", "C17:rtr_init-rejects-valid-intervals", "rtr_init rejected refresh %u expire %u retry %u", sc->cfg.refresh, sc->cfg.expire,
 		     sc->cfg.retry);
@@ -228,6 +253,10 @@ static int run_scen(struct scen *sc, uint64_t seed, struct sim *keep)
 	rtr_stop(&sock);
 	sim_after_stop(s);
 out:
+#ifdef SIM_TCP_WRAPS
+	if (USE_TCP && tcp_tr.free_fp)
+		tr_free(&tcp_tr);
+#endif
 	pfx_table_free(&pfxt);
 	if (s->cb && s->cb->enabled_p) {
 		CNT("c09/table_free_checks");
@@ -1272,6 +1301,9 @@ int main(int argc, char **argv)
 
 	VO.max_samples = 2;
 	ALLOC_UNDO_ONLY = argkv_l(argc, argv, "undo_only", 0);
+#ifdef SIM_TCP_WRAPS
+	USE_TCP = argkv_l(argc, argv, "tcp", 0);
+#endif
 	vo_open(argv[5]);
 	for (long c = from; c < to; c++) {
 		struct rng r;
